@@ -15,6 +15,14 @@ every expression position.  This module ties it to the REAL parser on every run:
 There is no oracle beyond agreement (C01 owns the comparison with CPython).  `search` turns a disagreement into a
 shrunk concrete input and records which side CPython agrees with.  Other property modules can import `streams`,
 `requests_for` and `corpus_items` from here (C01 / C08 / C09 statement-level ties).
+
+The printer `PV.Prog.render` (theorem `render_parse_partial`: all 28 statement kinds, 8 pattern kinds) is tied too:
+
+    rt <mode> <hex source> <attachment> <hex rendered text> <attachment of the rendered text>      (stream render-roundtrip)
+
+  the driver renders the tree it parsed (pre-pass `render`), the REAL lexer and parser read that text; harness: real parse of
+  source and rendering, trees compared; driver: its rendering is the text of the request, the real tokens of the text are
+  exactly `render tree`, `parseProgram` of them is the original tree.  Oracle: `eq=1 text=1 toks=1 infrag=1` on the real side.
 """
 import ast
 import io
@@ -94,7 +102,9 @@ TRUSTED = [
     "string tokens are decoded by the string model of PV.C11.Lexer (string.rs escapes); `\\N{name}` escapes are "
     "rewritten to `\\UXXXXXXXX` in the attachment with CPython's unicodedata (the name table is a parameter)",
     "f-string replacement fields are re-lexed by the small reference tokenizer PV.C11.lex (as in C11)",
-    "tools/props/prog.py (generators, corpus, mutations), harness/src/bin/pvh_prog.rs, lean/Drv/Prog.lean",
+    "tools/props/prog.py (generators, corpus, mutations), harness/src/bin/pvh_prog.rs, lean/Drv/Prog.lean (incl. `renderText`: "
+    "tokens separated by one space, four spaces per INDENT, literal spelling by PV.C11.Model's Tok.text — checked against the "
+    "real lexer by the `toks=1` flag of every render-roundtrip request)",
 ]
 PARTIAL = [
     "fuel: monotonicity is proved for every function of PV.Prog.Parse AND of PV.C11.Spec (progMono, c11Mono): a positive "
@@ -107,7 +117,9 @@ PARTIAL = [
     "annotations and defaults, with-items, type parameters, decorators) over C11's extended expression fragment "
     "InFragmentX, in Module / Interactive / Expression mode, at token level and for every sufficiently large fuel (an "
     "existential bound, not the driver's fuelFor).  Outside the fragment InFragmentP (render_parse_full is stated, not "
-    "proved): every tree that contains an f-string (JoinedStr / FormattedValue: outside C11's InFragmentX); and trees the "
+    "proved): every tree that contains an f-string (JoinedStr / FormattedValue: outside C11's InFragmentX) or a "
+    "comprehension target that is a parenthesised conditional / lambda / boolean / comparison / named expression (unparse.rs "
+    "writes comprehension targets bare: excluded by C11's `fx .target`); and trees the "
     "grammar cannot build (empty bodies, `_` as a capture name, a repeated keyword, …: the side conditions of inFragM). The "
     "TEXT of the rendering (spacing, literal spelling, indentation) is tied to the real lexer and parser by the stream "
     "`render-roundtrip` of this run, not by the theorem",
